@@ -225,7 +225,7 @@ func (s *encoder) Run(ctx context.Context) {
 		return
 	}
 
-	s.data = splitWithUDHI(encodedData, perMsgLength, s.frameKey)
+	s.data = splitWithUDHI(encodedData, perMsgLength, s.frameKey, cutFuncFor(encoder.Name()))
 }
 
 func (s *encoder) Result() (contents [][]byte, actualMsgFmt datacoding.ProtocolDataCoding, err error) {
